@@ -514,10 +514,11 @@ public:
    */
   void deleteNode(Nref nodeObject)
   {
-    // first deleting the node in the graph
+    // deleting the node in the graph, which tells all its observers
+    // (this one included) to forget the node
     getGraph()->deleteNode(getNodeGraphid(nodeObject));
-    // then forgetting
-    dissociateNode(nodeObject);
+    if (hasNode(nodeObject))
+      dissociateNode(nodeObject);
   }
 
 
